@@ -119,6 +119,30 @@ def run_case(ctx, rng, idx):
                                ("degree(block member, size=1500)", call(hb.degree, 3, size=m_), 1),
                                ("num_connected_components(size=2)", call(hb.num_connected_components, size=2), m_ + 2)):
             ctx.check("C08:components", not isinstance(got, _Raised) and got == exp, f"C08:{name}:1500-node-block", lambda: {"query": name, "got": repr(got)[:200], "expected": exp})
+        # filter values that come out of NARROW NumPy arrays, at the top of their range (order 127 as int8, order 255 / size 255
+        # as uint8): an order / size is a number, whatever its storage type
+        import numpy as np
+        from hypergraphx.measures import degree as dm2
+
+        big_e = {128: tuple(range(10000, 10128)), 256: tuple(range(20000, 20256)), 255: tuple(range(30000, 30255))}
+        hn = hgx.Hypergraph(list(big_e.values()) + [(10000, 20000), (10001, 30000, 5)])
+        dn = hgx.DirectedHypergraph([(big_e[128][:64], big_e[128][64:]), (big_e[256][:100], big_e[256][100:]), ((1,), (2, 10000))])
+        ctx.event("filters-as-narrow-numpy-integers-at-their-maximum")
+        for obj, oname in ((hn, "H"), (dn, "D")):
+            for kw, size in (({"order": np.int8(127)}, 128), ({"order": np.uint8(255)}, 256), ({"size": np.uint8(255)}, 255), ({"size": np.int16(256)}, 256), ({"order": np.int64(127)}, 128)):
+                es_ = [e for e in obj.get_edges()]
+                flat = [(tuple(e[0]) + tuple(e[1])) if oname == "D" else tuple(e) for e in es_]
+                sel = [e for e in flat if len(e) == size]
+                for node in (10000, 20000, 30000, 5):
+                    if node not in obj.get_nodes():
+                        continue
+                    exp = sum(1 for e in sel if node in e)
+                    got = call(dm2.degree, obj, node, **kw)
+                    ctx.check("C08:degree", not isinstance(got, _Raised) and got == exp, f"C08:{oname}:degree(function):filtered:narrow-numpy-integer", lambda: {"filter": repr(kw), "node": node, "got": repr(got), "expected": exp})
+                    got = call(obj.degree, node, **kw)
+                    ctx.check("C08:degree", not isinstance(got, _Raised) and got == exp, f"C08:{oname}:degree(method):filtered:narrow-numpy-integer", lambda: {"filter": repr(kw), "node": node, "got": repr(got), "expected": exp})
+                seq = call(dm2.degree_sequence, obj, **kw)
+                ctx.check("C08:degree", not isinstance(seq, _Raised) and sum(seq.values()) == sum(len(e) for e in sel), f"C08:{oname}:degree_sequence:filtered:narrow-numpy-integer", lambda: {"filter": repr(kw), "sum": repr(seq)[:80] if isinstance(seq, _Raised) else sum(seq.values()), "expected": sum(len(e) for e in sel)})
         ctx.distinct_add(("block", m_))
         return
     if idx == 7 or (ctx.tier == "thorough" and idx % 5000 == 19):
@@ -242,6 +266,22 @@ def many_nodes_case(ctx, rng, idx):
         seq = call(dm.degree_sequence, h, **kw)
         ctx.check("C08:degree", not isinstance(seq, _Raised) and all(seq.get(x) == deg[x] for x in probes) and sum(seq.values()) == sum(len(e) for e in sel),
                   "C08:H:degree_sequence:many-nodes" + (":filtered" if f else ""), lambda: wit())
+    # one long path, its links inserted in ascending, descending and shuffled order: the partition does not depend on the order
+    # in which the hyperedges arrived (a structure that is built incrementally - a forest, a frontier - sees three different
+    # histories here; 3000 nodes is beyond the default recursion limit)
+    m_ = 3000 if idx == 7 else 6000
+    links = [(i - 1, i) for i in range(1, m_)]
+    for oname, order in (("ascending", links), ("descending", links[::-1]), ("shuffled", rng.sample(links, len(links)))):
+        hp = hgx.Hypergraph(order + [(m_ + 5, m_ + 6, m_ + 7)])
+        hp.add_node(m_ + 20)
+        ctx.event("long-path:" + oname)
+        for kw, exp_n, exp_big in (({}, 3, m_), ({"size": 2}, 5, m_), ({"size": 3}, m_ + 2, 3)):
+            got = call(hp.connected_components, **kw)
+            ok = not isinstance(got, _Raised) and len(got) == exp_n and max(len(c) for c in got) == exp_big and sum(len(c) for c in got) == m_ + 4
+            ctx.check("C08:components", ok, "C08:connected_components(method):long-path:" + oname, lambda: {"order": oname, "filter": kw, "got": repr(got)[:200] if isinstance(got, _Raised) else (len(got), max(len(c) for c in got)), "expected": (exp_n, exp_big)})
+            for name, g_, e_ in (("num_connected_components", call(hp.num_connected_components, **kw), exp_n), ("largest_component_size", call(hp.largest_component_size, **kw), exp_big),
+                                 ("is_connected", call(hp.is_connected, **kw), False), ("node_connected_component", call(lambda: len(hp.node_connected_component(0, **kw))), m_ if kw.get("size") != 3 else 1)):
+                ctx.check("C08:components", not isinstance(g_, _Raised) and g_ == e_, f"C08:{name}:long-path:" + oname, lambda: {"order": oname, "filter": kw, "got": repr(g_)[:200], "expected": e_})
     ctx.distinct_add(("many-nodes", n))
 
 
